@@ -896,6 +896,27 @@ func (in *Interp) initPackages() {
 	in.funcsSeen = map[string]int{}
 }
 
+// lazyInit runs the initializer of p (only p: imports are initialised when first touched).
+func (in *Interp) lazyInit(p *ssa.Package) {
+	path := p.Pkg.Path()
+	if in.initWant[path] {
+		return
+	}
+	in.initWant[path] = true
+	in.allocGlobals(p)
+	if len(in.P.initRefs(p)) == 0 {
+		return
+	}
+	if f := p.Func("init"); f != nil {
+		saved := in.steps
+		pos := in.curPos
+		in.callSSA(nil, token.NoPos, f, nil, nil)
+		in.steps = saved
+		in.curPos = pos
+		in.stubsSeen["lazy-init:"+path]++
+	}
+}
+
 func (in *Interp) allocGlobals(p *ssa.Package) {
 	for _, m := range p.Members {
 		if g, ok := m.(*ssa.Global); ok {
